@@ -380,6 +380,8 @@ fn cy_expand(seq: &[Cy]) -> Vec<u8> {
 enum Chunk {
     Cf(usize),
     Cy(usize, bool),
+    /// programs whose slot types refer to themselves or to each other (slice of 4)
+    Recursive(usize),
 }
 
 fn plan(tier: Tier) -> Vec<Chunk> {
@@ -394,6 +396,9 @@ fn plan(tier: Tier) -> Vec<Chunk> {
         for c in 0..seq_chunks(cy_alphabet(false).len()) {
             v.push(Chunk::Cy(c, false));
         }
+    }
+    for i in 0..4 {
+        v.push(Chunk::Recursive(i));
     }
     v
 }
@@ -461,6 +466,20 @@ impl Check for C03 {
                     }
                     true
                 });
+            }
+            Chunk::Recursive(slice) => {
+                // rendering a slot type that contains itself must stop (a crash or a hang here is attributed by the supervisor)
+                for (i, code) in crate::c02::recursive_type_programs().into_iter().enumerate() {
+                    if i % 4 != slice {
+                        continue;
+                    }
+                    ctx.case(|| json!({"bytes": hex(&code), "plan": []}));
+                    ctx.count("pipeline_runs", 1);
+                    ctx.count("recursive_type_programs", 1);
+                    if let Err(v) = check_halts(&code, &sle::vm::Config::default(), &Vec::new(), TC_BUDGET) {
+                        ctx.violation(v.key, format!("{} [{}]", v.what, hex(&code)), json!({"bytes": hex(&code), "plan": []}));
+                    }
+                }
             }
             Chunk::Cy(c, small) => {
                 let alpha = cy_alphabet(small);
@@ -532,7 +551,7 @@ impl Check for C03 {
              and 3 settings beyond. The VM is driven directly: finishes within an analytic step budget, per-state visit counts <= \
              iteration limit, per-target fork counts <= fork limit, states <= 1 + forks x jumpdests, cumulative minimum gas <= limit + \
              one instruction. (b) all stack-safe read-mask-write sequences <= {} over 10 tokens{}: analyze() must finish within {} \
-             polls under the canonical order and under every single deviation at the unification / storage-export order points. \
+             polls under the canonical order and under every single deviation at the unification / storage-export order points; (c) 280 programs whose slot types refer to themselves or to each other: analyze() must finish (rendering a recursive type must stop). \
              non-trivial = (program, limits) where some limit actually fired, or a cyclic-family program; distinct by content",
             if tier.thorough() { 7 } else { 6 },
             if tier.thorough() { 5 } else { 4 },
